@@ -185,6 +185,16 @@ pub fn run(ctx: &Ctx, rep: &mut Report) {
             }
         }
     }
+    // the same lattice with big shards (4 KiB and more), where size-gated code paths live
+    for &(k, r) in &[(1usize, 2usize), (2, 2), (2, 3), (3, 2)] {
+        for eng in engines_fast() {
+            for codec in ["high", "low", "def"] {
+                specs.push((format!("{eng}#big"), codec, k, r, true));
+            }
+        }
+    }
+    // mid-size configurations: exactly-k sets against supersets, in shuffled orders
+    rep.bound("big_shard_lattice", J::s("(1,2) (2,2) (2,3) (3,2) with shards of 4096 and 8194 bytes: whole lattice and all permutations"));
     rep.bound("lattice", J::s(format!("all (k,r) with k+r <= {nmax_fast} on {:?}, k+r <= {nmax_all} on the other engines; codecs high/low/def (rs/def on the default engine)", engines_fast())));
     rep.bound("full_permutations", J::s(format!("every permutation of every sufficient subset, unmerged, for k+r <= {pmax}")));
     // unmerged: every ORDERED k-tuple and (k+1)-tuple of distinct shards for configurations with few
@@ -256,9 +266,83 @@ pub fn run(ctx: &Ctx, rep: &mut Report) {
     }
     rep.extra("ordered_tuple_decodes", J::i(tuple_decodes));
 
+    // mid-size: a minimal sufficient set, then the same set plus surplus shards, in three arrival orders
+    let mids: Vec<(usize, usize)> = if ctx.thorough() { vec![(100, 300), (300, 100), (1000, 3000), (3000, 1000), (600, 600), (4000, 4000), (255, 257)] } else { vec![(100, 300), (300, 100), (1000, 3000), (3000, 1000)] };
+    let mut mid_jobs: Vec<(&'static str, &'static str, usize, usize)> = Vec::new();
+    for &(k, r) in &mids {
+        for codec in ["high", "low", "def"] {
+            if spec_supports(codec_kind(codec), k, r) {
+                mid_jobs.push((if engines_fast().contains(&"avx2") { "avx2" } else { "nosimd" }, codec, k, r));
+            }
+        }
+    }
+    rep.bound("mid_size_surplus", J::s(format!("{mids:?}: minimal set and supersets with 1, 2 and many surplus shards, in ascending, descending and interleaved arrival order")));
+    let mid_results: Vec<(u64, Vec<Violation>)> = par_for(mid_jobs.len(), 1, |i| {
+        let (eng, codec, k, r) = mid_jobs[i];
+        let g = match build_group(eng, codec, k, r, "dense:64", soil, seed) {
+            Ok(g) => g,
+            Err(e) => return (0, vec![Violation { key: format!("encode-{codec}-{eng}-{k}-{r}"), case: Kv::new().with("eng", eng).with("codec", codec).with("k", k).with("r", r).with("data", "dense:64").with("soil", soil).with("seed", seed).with("order", "-").dump(), expected: "encode Ok".into(), observed: e }]),
+        };
+        let m = k.min(r);
+        // minimal: originals m.. and recovery 0..m spread over the range (every (r/m)-th)
+        let step = (r / m).max(1);
+        let rec_min: Vec<usize> = (0..m).map(|j| j * step).collect();
+        let base: Vec<usize> = (m..k).chain(rec_min.iter().map(|j| k + j)).collect();
+        let unused: Vec<usize> = (0..r).filter(|j| !rec_min.contains(j)).map(|j| k + j).collect();
+        let mut sets: Vec<Vec<usize>> = vec![base.clone()];
+        for extra in [1usize, 2, unused.len() / 2, unused.len()] {
+            if extra > 0 && extra <= unused.len() {
+                let mut s = base.clone();
+                s.extend(unused.iter().rev().take(extra)); // the highest unused recovery indexes
+                sets.push(s.clone());
+                let mut s2 = base.clone();
+                s2.extend(unused.iter().take(extra)); // the lowest unused ones
+                sets.push(s2);
+            }
+        }
+        let mut n = 0u64;
+        let mut viols = Vec::new();
+        for set in sets {
+            let mut asc = set.clone();
+            asc.sort();
+            let mut desc = asc.clone();
+            desc.reverse();
+            let mut inter: Vec<usize> = Vec::with_capacity(asc.len());
+            let (mut lo, mut hi) = (0usize, asc.len());
+            while lo < hi {
+                inter.push(asc[lo]);
+                lo += 1;
+                if lo < hi {
+                    hi -= 1;
+                    inter.push(asc[hi]);
+                }
+            }
+            for order in [asc, desc, inter] {
+                n += 1;
+                if viols.len() < 10 {
+                    if let Err((exp, obs)) = check_order(&g, &order) {
+                        let short = if order.len() > 12 { format!("{}..({} shards)", fmt_list(&order[..12]), order.len()) } else { fmt_list(&order) };
+                        viols.push(Violation { key: format!("{}-{}-k{}r{}-mid-order{}", g.codec, g.eng, g.k, g.r, short), case: g.kv().with("order", fmt_list(&order)).dump(), expected: exp, observed: obs });
+                    }
+                }
+            }
+        }
+        (n, viols)
+    });
+    for (n, vs) in mid_results {
+        rep.traces += n;
+        rep.evaluations += n;
+        rep.states += n;
+        rep.transitions += n;
+        rep.distinct += n;
+        rep.violations(vs);
+    }
+
     let results: Vec<Result<Out, Violation>> = par_for(specs.len(), 1, |i| {
         let (eng, codec, k, r, perms) = &specs[i];
-        let data = if (k + r) % 2 == 0 { "dense:64" } else { "dense:66" };
+        let big = eng.ends_with("#big");
+        let eng = &eng.trim_end_matches("#big").to_string();
+        let data = if big { if (k + r) % 2 == 0 { "dense:4096" } else { "dense:8194" } } else if (k + r) % 2 == 0 { "dense:64" } else { "dense:66" };
         match build_group(eng, codec, *k, *r, data, soil, seed) {
             Ok(g) => Ok(explore_group(&g, *perms)),
             Err(e) => Err(Violation { key: format!("encode-{codec}-{eng}-{k}-{r}"), case: Kv::new().with("eng", eng).with("codec", codec).with("k", k).with("r", r).with("data", data).with("soil", soil).with("seed", seed).with("order", "-").dump(), expected: "encode Ok".into(), observed: e }),
